@@ -292,6 +292,9 @@ PL_CFGS = [
     {"backend": "fd", "mode": "strict", "pe": 1, "fsync": "sync_each"},
     {"backend": "mmap", "mode": "strict", "pe": 1, "fsync": "sync_each"},
     {"backend": "fd", "mode": "alo", "pe": 2, "fsync": "sync_each"},
+    # the process opened an instance with another schedule first (process-wide settings such as O_SYNC are latched
+    # from the first instance): SyncEach must still hold for the later instance
+    {"backend": "fd", "mode": "strict", "pe": 1, "fsync": "sync_each", "pre_fsync": "ms200"},
 ]
 
 
@@ -490,13 +493,14 @@ def run_powerloss(behs, tier, tag):
             elif e.get("ev") != "note":
                 pending.append(e)
         # per_op[0] = open; per_op[k] = k-th operation
-        o_sync = beh["cfg"]["backend"] == "fd"
+        o_sync = beh["cfg"]["backend"] == "fd" and not beh["cfg"].get("pre_fsync")
         groups = {}
         nops = len(beh["ops"])
         points = []
         for k in range(0, nops + 1):
             points.append((marks[k], k, None))            # right after operation k returned (k=0: after open)
-        if tier == "thorough":
+        if tier == "thorough" or ix % 2 == 0:
+            # (quick: every second workload) also every I/O-trace prefix inside an operation
             for k in range(1, nops + 1):                  # inside operation k
                 for pos in range(marks[k - 1] + 1, marks[k]):
                     points.append((pos, k - 1, k))
@@ -638,7 +642,7 @@ def c10(tier):
     ck = PE.EngineCheck("C10", tier)
     mc = PE.contract_mc(tier)
     r = random.Random("c10/%d" % C.seed())
-    n = 40 if tier == "thorough" else 9
+    n = 40 if tier == "thorough" else 12
     behs = PE.load_corpus_files("C10")
     for i in range(n):
         cfg = dict(PL_CFGS[i % len(PL_CFGS)])
